@@ -22,7 +22,7 @@ SHARD_DEADLINE = {'quick': 300, 'thorough': 3000}
 def floors(tier):
     return {'distinct_nontrivial': 300 if tier == 'quick' else 20000, 'pairs_vs_reference': 20000,
             'assoc_triples': 100000, 'gp_blade_products_executed': 3000, 'spellings_checked': 500,
-            'lazy_pairs': 2000}
+            'lazy_pairs': 2000, 'lazy_cayley_entries': 300}
 
 
 def plan(tier, seed):
@@ -294,6 +294,22 @@ def check_lazy(cfg, alg, iso, ctx, name):
         want = int(alg.signature[int(nm[1:], 16) - alg.start_index])
         if S[2 ** j, 2 ** j] != want:
             bad.append(['square', nm, int(S[2 ** j, 2 ** j]), want])
+    if alg.d == 7:
+        st, cay = ctx.guarded(120, lambda: alg.cayley)
+        if st == 'ok':
+            names7 = list(alg.canon2bin.items())
+            nc = 0
+            for _ in range(400):
+                (eI, I), (eJ, J) = rng.choice(names7), rng.choice(names7)
+                s, K = expected_sign(iso, I, J)
+                want = '0' if s == 0 else ('-' if s < 0 else '') + alg.bin2canon[K]
+                nc += 1
+                if cay.get((eI, eJ)) != want:
+                    bad.append(['cayley', eI, eJ, cay.get((eI, eJ)), want])
+            ctx.count('cayley_entries', nc)
+            ctx.count('lazy_cayley_entries', nc)
+        elif st == 'exc':
+            ctx.note_raised(cay, 'lazy-cayley')
     ctx.count('lazy_pairs', count)
     ctx.count('assoc_triples', nt)
     ctx.count('pairs_vs_reference', count)
